@@ -246,6 +246,16 @@ func init() {
 		}
 		if rs.body != nil {
 			body = bytes.NewBufferString(rs.body(reqNs))
+			if rs.query == nil && rng.Intn(3) == 0 {
+				// a stray `namespace` query parameter naming another namespace than the object in the body: what is reviewed
+				// must be the namespace the data is touched in
+				other := "a"
+				if reqNs == "a" {
+					other = "b"
+				}
+				target += "?namespace=" + other
+				multi = true
+			}
 		}
 		req := httptest.NewRequest(rs.method, target, body)
 		// the identity header is <USERID_PREFIX><user>; the review must be made for exactly <user>
